@@ -3,11 +3,11 @@
 # Development helper: runs a property's check against a COPY of /repo with the seeded patch applied
 # (own scratch, /repo untouched).  The recorded confirmation uses tools/seed_on_repo.sh instead.
 id=$1; prop=$2; shift 2
-src=/var/tmp/seedrepo/$id
+src=/var/tmp/seedrepo/$id.$$
 mkdir -p /var/tmp/seedrepo
 rsync -a --delete --exclude /target --exclude /.git --exclude /website --exclude /doc --exclude /extension /repo/ $src/
 ( cd $src && git init -q 2>/dev/null; patch -p1 -s < /verif/seeded/$id/patch.diff ) || { echo "patch failed"; exit 2; }
-S=/var/tmp/bsverif_seed
+S=${SEED_SCRATCH:-/var/tmp/bsverif_seed}
 mkdir -p $S
 [ -d $S/kani-target ] || cp -r /var/tmp/bsverif/kani-target $S/kani-target
 BSVERIF_REPO=$src BSVERIF_SCRATCH=$S BSVERIF_REPLAYS=$S/replays python3 /verif/bsverif/run.py $prop --no-evidence "$@"
